@@ -94,12 +94,19 @@ def quaternion_from_two_vectors_around_axis(p1, p2, axis):
         angle *= -1
     return R.from_quat([*(axis*np.sin(-angle / 2)), np.cos(-angle/2)])
 
-def guess_elements_from_masses(masses, max_delta=1e-2):
+def guess_elements_from_masses(masses, max_delta=1e-1):
     def find_element(elmass):
+        # pick the element whose mass is closest to elmass, if it is within max_delta
+        best_sym = None
+        best_delta = max_delta
         for sym, mass in ATOMIC_MASSES.items():
-            if elmass - mass < max_delta:
-                return sym
-        raise Exception("no element matching mass %8.5f in elements list. Please add one?")
+            delta = abs(elmass - mass)
+            if delta < best_delta:
+                best_sym = sym
+                best_delta = delta
+        if best_sym is None:
+            raise Exception("no element matching mass %8.5f in elements list. Please add one?")
+        return best_sym
 
     return [find_element(m) for m in masses]
 
